@@ -244,7 +244,7 @@ func TestC19_Corruptions(t *testing.T) {
 	check(t, "C19", 3000, func(t *rapid.T) {
 		p := wideProtocol()
 		kind := rapid.SampledFrom([]string{"request-outer", "request-inner-delta", "request-inner-signed", "request-header", "request-unexpected-type",
-			"patch", "patch-sequence", "history", "empty-create", "ietf-hostile", "did", "did-string", "jws-jwk", "bytes"}).Draw(t, "target")
+			"patch", "patch-sequence", "history", "empty-create", "ietf-hostile", "did", "did-string", "jws-jwk", "catalogue", "bytes"}).Draw(t, "target")
 		nontrivial := false
 		desc := kind
 		switch kind {
@@ -506,6 +506,17 @@ func TestC19_Corruptions(t *testing.T) {
 			}
 			runEntry(t, st, "ResolveDID", []byte(did), kind)
 			nontrivial = strings.Count(did, ":") >= 3
+		case "catalogue":
+			// the labelled refusal classes the other properties use (wrong-size and undecodable nonces, malformed reveal values,
+			// header and key defects, delta problems ...): each is hostile input in its own way, each is answered with an error
+			typ := rapid.SampledFrom([]string{"update", "recover", "deactivate", "create"}).Draw(t, "opType")
+			ctx := &opGenCtx{P: p, Doc: map[string]interface{}{}, Suffix: entrySuffix, Keys: entryKeys(), St: st, Time: 5, NoIetf: rapid.Bool().Draw(t, "noIetf")}
+			c := genOpCase(t, typ, ctx)
+			raw := c.Bytes // what the class produced (not always the serialization of the builder: cut-off text, another type)
+			runEntry(t, st, "ParseRequest", raw, kind)
+			runEntry(t, st, "Apply", []byte(refJCS(map[string]interface{}{"type": typ, "request": string(raw)})), kind)
+			nontrivial = c.Class != "valid"
+			desc = kind + typ + c.Class + string(raw)
 		case "jws-jwk":
 			k := genKey(t, "key")
 			jwkV, how := corruptValue(t, k.JWKValue())
